@@ -16,6 +16,7 @@ package main
 import (
 	"context"
 	"encoding/json"
+	"errors"
 	"fmt"
 	"sort"
 	"strings"
@@ -36,9 +37,12 @@ type memStore struct {
 	crashAt  int  // n-th Put (1-based) panics; 0 = never
 	crashAft bool // panic after applying
 	crashed  chan crashSignal
+	failNext bool // the next Put returns an error and stores nothing
 }
 
-func newMemStore() *memStore { return &memStore{data: map[string][]byte{}, crashed: make(chan crashSignal, 4)} }
+func newMemStore() *memStore {
+	return &memStore{data: map[string][]byte{}, crashed: make(chan crashSignal, 4)}
+}
 
 func (s *memStore) Get(ctx context.Context, key string, withPrefix bool) ([]api.MetaMsg, error) {
 	s.mu.Lock()
@@ -67,6 +71,11 @@ func (s *memStore) Put(ctx context.Context, key string, value api.MetaMsg) error
 		return err
 	}
 	s.mu.Lock()
+	if s.failNext {
+		s.failNext = false
+		s.mu.Unlock()
+		return errors.New("injected store failure")
+	}
 	s.puts++
 	crash := s.crashAt != 0 && s.puts == s.crashAt
 	if crash && !s.crashAft {
@@ -129,7 +138,7 @@ type c17Msg struct {
 }
 
 type c17Op struct {
-	Kind   string // report | remove | reload | crash-report | concurrent
+	Kind   string // report | fail-report | remove | reload | crash-report | concurrent
 	Msg    int
 	Shards []string // reported shards (report: usually one)
 	After  bool     // crash after the store applied the Put
@@ -178,6 +187,9 @@ func genC17(seed int64, idx int) c17Case {
 		mi := rnd.Intn(len(c.Msgs))
 		tg := c.Msgs[mi].Target
 		switch p := rnd.Intn(100); {
+		case p < 6:
+			// the store refuses this one write (error return): the other messages must not notice
+			c.Ops = append(c.Ops, c17Op{Kind: "fail-report", Msg: mi, Shards: []string{tg[rnd.Intn(len(tg))]}})
 		case p < 68:
 			c.Ops = append(c.Ops, c17Op{Kind: "report", Msg: mi, Shards: []string{tg[rnd.Intn(len(tg))]}})
 		case p < 76:
@@ -206,7 +218,7 @@ func runC17(tier string) *vf.Run {
 	run.Rule = "case = generated history over 1-3 tasks x 1-4 drop messages (collection and partition kind, 1-6 target shards): shard reports (any order, duplicates), removals, reloads (new instance on the same store), crashes inside an update (store panics before/after the Put, instance dropped, reload), and all shards reporting concurrently; after every step memory view, store content and reference union are compared. Non-trivial = a message received reports from >= 2 distinct shards, or a removal/reload/crash hit a message with recorded reports; distinct by (kind, #targets, sequence of op kinds on that message)."
 	run.Assumptions = []string{
 		"in-memory api.ReplicateStore keeps JSON bytes per key like meta.EtcdReplicateStore (prefix scan on Get)",
-		"store failures (error returns) are outside the property's quantifier (histories, crash points) and are not injected; crashes are modelled as a panic in Put followed by dropping the instance",
+		"a refused store write (error return) is injected for single reports and judged only for the OTHER messages (they must be unchanged in memory and store); what the message of the refused write holds in memory afterwards is not judged, a reload follows; crashes are modelled as a goroutine that never returns from Put followed by dropping the instance",
 	}
 	n := run.Pick(1500, 60000)
 	ctx := context.Background()
@@ -347,6 +359,41 @@ func runC17(tier string) *vf.Run {
 					run.Count("ready_reported", 1)
 				}
 				checkAll(fmt.Sprintf("after report #%d", oi), -1, nil)
+			case "fail-report":
+				store.mu.Lock()
+				store.failNext = true
+				store.mu.Unlock()
+				_, err, _ := report(op.Msg, op.Shards[0])
+				store.mu.Lock()
+				consumed := !store.failNext
+				store.failNext = false
+				store.mu.Unlock()
+				trace = append(trace, fmt.Sprintf("#%d report %s/%s %s with a failing store write -> err=%v", oi, c.Msgs[op.Msg].Task, c.Msgs[op.Msg].ID, op.Shards[0], err))
+				if consumed && err == nil {
+					fail("C17/store-error-swallowed", fmt.Sprintf("report #%d on %s/%s: the store refused the write, the update returned no error", oi, c.Msgs[op.Msg].Task, c.Msgs[op.Msg].ID))
+					break
+				}
+				run.Count("failed_store_writes", 1)
+				// the failed update concerned ONE message: every other message is as before, in all three views
+				for i, m := range c.Msgs {
+					if i == op.Msg {
+						continue
+					}
+					mv, mok := memView(impl, m)
+					sv, sok := store.ready(m.Task, m.ID)
+					want := refSet(i)
+					if ref[i].present != sok || (sok && !eqSet(sv, want)) || mok != sok || !eqSet(mv, sv) {
+						fail("C17/failed-update-changed-another-message", fmt.Sprintf("after report #%d on %s/%s failed in the store: msg %s/%s memory ready=%v present=%v, store ready=%v present=%v, union of reports=%v present=%v", oi, c.Msgs[op.Msg].Task, c.Msgs[op.Msg].ID, m.Task, m.ID, mv, mok, sv, sok, want, ref[i].present))
+					}
+					if ref[i].present {
+						run.Count("bystander_messages_checked_after_failed_write", 1)
+					}
+				}
+				// the message of the failed update itself is brought back in line by a reload (what it holds in memory
+				// after a refused write is outside this check)
+				if !reload() {
+					bad = true
+				}
 			case "remove":
 				m := c.Msgs[op.Msg]
 				err := impl.RemoveTaskMsg(ctx, m.Task, m.ID)
